@@ -46,8 +46,8 @@ MIN_NONTRIVIAL = {"quick": 2500, "thorough": 100000}
 TIMEOUT = {"quick": 1200, "thorough": 7200}
 NSLICE = {"quick": 12, "thorough": 16}
 # per shard counts
-BUDGET = {"quick": {"ids": 110, "table": 70, "dmig": 70, "grid": 45, "cord": 25,
-                    "uset": 25},
+BUDGET = {"quick": {"ids": 200, "table": 140, "dmig": 160, "grid": 90, "cord": 50,
+                    "uset": 50},
           "thorough": {"ids": 4200, "table": 2600, "dmig": 2600, "grid": 1500,
                        "cord": 900, "uset": 900}}
 
